@@ -262,7 +262,7 @@ def classify(cs, label, run_res, ref_canon, steps_of=None):
         same_pk = sorted((x[0], x[1], x[2], x[3]) for x in canon_visible(run_res["steps"][-1]["streams"])) == sorted((x[0], x[1], x[2], x[3]) for x in ref_canon)
         if not errs2 and same_pk:
             return "known:" + KF_QUEUED, errs
-    if label.startswith("snap") or label in ("each", "eachrestart"):
+    if label.startswith("snap") or label in ("each", "nosnap"):
         frag = forgotten_tcp(cs, steps_of, run_res)
         if frag:
             def on_frag(s):
@@ -378,7 +378,7 @@ def main(tier, seed, replay=None):
                 if fn.endswith(".json"):
                     o = json.load(open(os.path.join(cdir, fn)))
                     (snap_sets if o.get("snap_overlay") else plain_sets).append(set_from_json(o["set"]))
-        n_main, n_ooo, n_snap, n_snapreuse, n_bulk = (150, 70, 100, 12, 0) if tier == "quick" else (1200, 500, 800, 60, 3)
+        n_main, n_ooo, n_snap, n_snapreuse, n_bulk = (150, 70, 100, 12, 0) if tier == "quick" else (800, 300, 500, 40, 2)
         for i in range(n_main):
             cs = gen_set(rng, "m%d" % i, REGIMES[i % len(REGIMES)])
             mode = rng.choice(["contig", "contig", "flowsplit"])
@@ -417,12 +417,11 @@ def main(tier, seed, replay=None):
             cut_files(rng, cs, "contig", cuts=rng.sample(starts, rng.randrange(1, len(starts) + 1)))
             snap_sets.append((cs, schedules_snap(rng, cs, tier, every=rng.choice([1, 2, 3]))))
         for i in range(n_bulk):
-            cs = gen_bulk(rng, "b%d" % i, 130000 + 40000 * i)
+            cs = gen_bulk(rng, "b%d" % i, 110000 + 40000 * i)
             cut_files(rng, cs, "contig", nfiles=rng.choice([3, 4, 5]))
             nf = len(cs.files)
             runs = [("oneshot", 100000, [(0, list(range(nf)))]),
-                    ("each", 100000, [(0, [f]) for f in range(nf)]),
-                    ("eachrestart", 100000, [(1, [f]) for f in range(nf)]),
+                    ("each", 100000, [(rng.choice([0, 1]), [f]) for f in range(nf)]),
                     ("nosnap", 100000, [(2, [f]) for f in range(nf)])]
             plain_sets.append((cs, runs))
     notes = ""
